@@ -370,6 +370,7 @@ UNIT = dict(
     'hms.iter.postinc.copy': dict(deciding=True, text='operator++(int) returns a full, independently protected copy of the position before the increment (same list, prev, cur and save, each with its own guard) and advances *this exactly as operator++ does'),
     'hms.iter.special.memberwise': dict(deciding=True, text='copy construction / assignment give the target the source position (list, prev, cur, save) with its own protection and leave the source unchanged; move construction / assignment transfer position and protection; the old protections of an assigned-to iterator are released; self-assignment changes nothing; protection counts are exact'),
     'hms.iter.reset.releases': dict(deciding=True, text='reset() releases both guards (the iterator compares equal to end()) and touches nothing else; operator== compares the current nodes only'),
+    'hms.insert.expected_protected': dict(deciding=True, text='[INT] the expected value of the linking CAS (the successor) and of every unlinking CAS (the node spliced out) is protected by a guard of this handle when the CAS is made: no ABA on a recycled address'),
     'hms.iter.copy.independent': dict(deciding=True, text='copies / moved iterators are independently protected: advancing one leaves the other dereferenceable and well-formed'),
   },
   replays={
